@@ -123,11 +123,17 @@ impl Trace for ClassAttributes {
 #[derive(Debug, Clone, Copy)]
 pub struct TryAttributes {
   scope_depth: usize,
+
+  /// how many try blocks of this function enclose this point, this one included
+  nesting: usize,
 }
 
 #[derive(Debug, Clone, Copy)]
 pub struct LoopAttributes {
   scope_depth: usize,
+
+  /// how many try blocks of this function were active where the loop begins
+  try_nesting: usize,
   start: Label,
   end: Label,
 }
@@ -448,11 +454,16 @@ impl<'a, 'src: 'a> Compiler<'a, 'src> {
       _ => self.emit_byte(SymbolicByteCode::Nil, line),
     }
 
-    if self.try_attributes.is_some() {
+    for _ in 0..self.try_nesting() {
       self.emit_byte(SymbolicByteCode::PopHandler, line);
     }
 
     self.emit_byte(SymbolicByteCode::Return, line);
+  }
+
+  /// How many try blocks of the current function are active here
+  fn try_nesting(&self) -> usize {
+    self.try_attributes.map(|t| t.nesting).unwrap_or(0)
   }
 
   fn loop_scope(
@@ -466,6 +477,7 @@ impl<'a, 'src: 'a> Compiler<'a, 'src> {
     // set this loop as current
     let loop_attributes = LoopAttributes {
       scope_depth: self.scope_depth,
+      try_nesting: self.try_nesting(),
       start,
       end,
     };
@@ -1594,7 +1606,7 @@ impl<'a, 'src: 'a> Compiler<'a, 'src> {
       Some(v) => {
         self.expr(v);
 
-        if self.try_attributes.is_some() {
+        for _ in 0..self.try_nesting() {
           self.emit_byte(SymbolicByteCode::PopHandler, v.end());
         }
 
@@ -1615,10 +1627,8 @@ impl<'a, 'src: 'a> Compiler<'a, 'src> {
 
     // if our try catch is inside this loop
     // a break will jump outside of it so we need to pop the handler
-    if let Some(try_attributes) = self.try_attributes {
-      if try_attributes.scope_depth > loop_attributes.scope_depth {
-        self.emit_byte(SymbolicByteCode::PopHandler, continue_.start());
-      }
+    for _ in loop_attributes.try_nesting..self.try_nesting() {
+      self.emit_byte(SymbolicByteCode::PopHandler, continue_.start());
     }
 
     self.emit_byte(
@@ -1638,10 +1648,8 @@ impl<'a, 'src: 'a> Compiler<'a, 'src> {
 
     // if our try catch is inside this loop
     // a break will jump outside of it so we need to pop the handler
-    if let Some(try_attributes) = self.try_attributes {
-      if try_attributes.scope_depth > loop_attributes.scope_depth {
-        self.emit_byte(SymbolicByteCode::PopHandler, break_.start());
-      }
+    for _ in loop_attributes.try_nesting..self.try_nesting() {
+      self.emit_byte(SymbolicByteCode::PopHandler, break_.start());
     }
 
     self.emit_byte(SymbolicByteCode::Jump(loop_attributes.end), break_.start());
@@ -1652,6 +1660,7 @@ impl<'a, 'src: 'a> Compiler<'a, 'src> {
     // set this try block as the current
     let try_attributes = TryAttributes {
       scope_depth: self.scope_depth,
+      nesting: self.try_nesting() + 1,
     };
     let enclosing_try = self.try_attributes.replace(try_attributes);
 
